@@ -236,7 +236,8 @@ def project_full(objs, idtok, names_raw=True):
             st["attrs"][h], st["vals"][h], st["id"][h] = {}, [], "none"
             continue
         names = DOC_ATTRS if k == "doc" else SEC_ATTRS if k == "sec" else PROP_ATTRS
-        st["attrs"][h] = {a: _s(getattr(o, a)) for a in names}
+        # an attribute removed with `del obj.attr` (Section.definition has a deleter) reads as unset
+        st["attrs"][h] = {a: _s(getattr(o, a, None)) for a in names}
         st["vals"][h] = deep_vals(o) if k == "prop" else []
         st["id"][h] = idtok(o.id)
         if names_raw and k in ("sec", "prop"):
